@@ -67,9 +67,9 @@ func genIndexSlice(s *sink, quick bool) {
 		maxAll = 2
 	}
 	if quick {
-		s.coqEvery["slice"], s.pyEvery["slice"] = 520, 30
-		s.coqEvery["slice:range"], s.pyEvery["slice:range"] = 150, 15
-		s.coqEvery["index"], s.pyEvery["index"] = 12, 3
+		s.coqEvery["slice"], s.pyEvery["slice"] = 700, 30
+		s.coqEvery["slice:range"], s.pyEvery["slice:range"] = 500, 15
+		s.coqEvery["index"], s.pyEvery["index"] = 25, 3
 		s.coqEvery["setindex"], s.pyEvery["setindex"] = 4, 2
 	} else {
 		s.coqEvery["slice"], s.pyEvery["slice"] = 2100, 40
@@ -173,7 +173,7 @@ func genMethods(s *sink, quick bool) {
 	}
 	needles := []string{"", "a", "b", "aa", "ab", "ba", "bb", "c", "aba", "abc"}
 	// --- find / rfind / index / rindex / count / startswith / endswith with sub-ranges
-	rate("subrange", 700, 25, 2500, 40)
+	rate("subrange", 1500, 25, 2500, 40)
 	for ri, rs := range allStrings("abc", 0, maxLen) {
 		recv := vStr(rs)
 		pool := idxPool(len(rs))
@@ -219,7 +219,7 @@ func genMethods(s *sink, quick bool) {
 		}
 	}
 	// --- split / rsplit with a separator
-	rate("split", 60, 6, 150, 8)
+	rate("split", 200, 6, 150, 8)
 	seps := []V{vStr("a"), vStr("b"), vStr("ab"), vStr("aa"), vStr("aba"), vStr(""), vInt(1), vBytes("a")}
 	for _, rs := range allStrings("abc", 0, maxLen+1) {
 		recv := vStr(rs)
@@ -235,7 +235,7 @@ func genMethods(s *sink, quick bool) {
 		}
 	}
 	// --- split / rsplit on white space
-	rate("wsplit", 60, 6, 150, 8)
+	rate("wsplit", 150, 6, 150, 8)
 	for _, rs := range allStrings("a b", 0, maxLen+2) {
 		recv := vStr(rs)
 		counts := []V{vInt(-1), vInt(0), vInt(1), vInt(2), vInt(3), vInt(int64(len(rs) + 1)), vNone()}
@@ -271,7 +271,7 @@ func genMethods(s *sink, quick bool) {
 		call(s, recv, "string", "splitlines", "splitlines", vBool(true), vBool(true))
 	}
 	// --- partition / rpartition / removeprefix / removesuffix
-	rate("partition", 40, 5, 100, 6)
+	rate("partition", 120, 5, 100, 6)
 	for _, rs := range allStrings("abc", 0, maxLen+1) {
 		recv := vStr(rs)
 		for _, m := range []string{"partition", "rpartition", "removeprefix", "removesuffix"} {
@@ -285,7 +285,7 @@ func genMethods(s *sink, quick bool) {
 		}
 	}
 	// --- strip family
-	rate("strip", 40, 5, 100, 6)
+	rate("strip", 100, 5, 100, 6)
 	for _, rs := range allStrings("a b", 0, maxLen+1) {
 		recv := vStr(rs)
 		for _, m := range []string{"strip", "lstrip", "rstrip"} {
@@ -306,7 +306,7 @@ func genMethods(s *sink, quick bool) {
 		}
 	}
 	// --- replace
-	rate("replace", 250, 12, 900, 20)
+	rate("replace", 500, 12, 900, 20)
 	for _, rs := range allStrings("abc", 0, maxLen) {
 		recv := vStr(rs)
 		for _, old := range needles {
@@ -338,7 +338,7 @@ func genMethods(s *sink, quick bool) {
 		call(s, recv, "string", "join", "join", vList(), vList())
 	}
 	// --- case mapping and predicates
-	rate("case", 60, 6, 250, 8)
+	rate("case", 80, 6, 250, 8)
 	caseM := []string{"upper", "lower", "capitalize", "title", "isalnum", "isalpha", "isdigit", "islower", "isupper", "isspace", "istitle"}
 	cl := 3
 	if !quick {
@@ -380,8 +380,8 @@ func genSeq(s *sink, quick bool) {
 	if quick {
 		maxLen = 3
 	}
-	rate("list.index", 200, 10, 700, 15)
-	rate("list", 20, 4, 60, 5)
+	rate("list.index", 500, 10, 700, 15)
+	rate("list", 30, 4, 60, 5)
 	for _, rs := range allStrings("\x00\x01\x02", 0, maxLen) {
 		recv := mkSeq("list", []byte(rs))
 		pool := idxPool(len(rs))
@@ -429,7 +429,7 @@ func genSeq(s *sink, quick bool) {
 		call(s, mixed, "list", "remove", "list", v)
 	}
 	// --- built-ins
-	rate("builtin", 8, 2, 20, 3)
+	rate("builtin", 14, 2, 20, 3)
 	truthy := []V{vInt(0), vInt(1), vStr(""), vStr("a"), vNone(), vList(), intList(0), vTuple(), vTuple(vInt(0)), vBytes(""), vBytes("a"), vInt(-1)}
 	var seqs []V
 	for _, n := range []int{0, 1, 2, 3} {
@@ -517,7 +517,7 @@ func genRandom(s *sink, quick bool) {
 	n := 200000
 	if quick {
 		n = 20000
-		s.coqEvery["random"], s.pyEvery["random"] = 40, 4
+		s.coqEvery["random"], s.pyEvery["random"] = 100, 4
 	} else {
 		s.coqEvery["random"], s.pyEvery["random"] = 100, 4
 	}
